@@ -100,6 +100,18 @@ claim(
     "DESIGN.md section 4, C16",
 )
 
+claim(
+    "C11",
+    "exhaustive table agreement between the option serializers and the generated flatbuffer schema classes; totality / injectivity of the type and "
+    "operator maps; provenance of the written interface lists; reader/writer pairing rules; (thorough) effect-before-guard listing for rewrites",
+    "Decides clauses a-d of DESIGN.md 4/C11 (e informational in the thorough tier): every field of every builtin options table is read and written back; "
+    "operator / tensor-type / options maps are total and invertible; written inputs and outputs come from the source-order lists; the writer undoes the "
+    "reader's operand reordering and constant cloning by identity, and the reader copies constant data out of the model buffer. Known findings F6, F6b, "
+    "F11 are genuine. Does NOT decide per-network operator preservation or flatbuffer well-formedness of the output.",
+    "Trusted: the generated schema classes under ethosu/vela/tflite as the schema oracle; str.title() camel-casing as in underscore_to_camel_case.",
+    "DESIGN.md section 4, C11",
+)
+
 
 def build():
     checks = []
